@@ -1019,6 +1019,8 @@ def _norm_out(d, out):
         return ("ok",)
     if d["op"] in ("min", "max"):
         # an optimum is a bit pattern: the caches hand back the unsigned reading, the solver path the signed one
+        if not isinstance(out[1], int):
+            return ("ok", out[1])
         return ("ok", out[1] % (1 << _UNI[0].parse(d["e"]).size()))
     return ("ok", out[1])
 
